@@ -855,18 +855,29 @@ func (w *Worktree) Move(from, to string) (plumbing.Hash, error) {
 		return plumbing.ZeroHash, err
 	}
 
-	hash, err := w.deleteFromIndex(idx, from)
+	e, err := idx.Remove(from)
 	if err != nil {
 		return plumbing.ZeroHash, err
 	}
+	hash := e.Hash
 
 	if err := w.filesystem.Rename(from, to); err != nil {
 		return hash, err
 	}
 
-	if err := w.addOrUpdateFileToIndex(idx, to, hash); err != nil {
+	// The entry moves as it is, stat data included: refreshing it from the
+	// file would make a modified file look unchanged against the old hash.
+	removeConflictingEntries(idx, to)
+	if _, err := idx.Remove(to); err != nil && !errors.Is(err, index.ErrEntryNotFound) {
 		return hash, err
 	}
+	moved, err := idx.Add(to)
+	if err != nil {
+		return hash, err
+	}
+	name := moved.Name
+	*moved = *e
+	moved.Name = name
 
 	return hash, w.r.Storer.SetIndex(idx)
 }
